@@ -161,6 +161,87 @@ theorem C05_within_1e15_instance :
     unfold rabs at *
     grind
 
+/-! ### whole files: every real of the solution (ROUND 8) -/
+
+theorem sparseD_texts {D : Type} (c : Codec D) (vs : List D) : ∀ i,
+    (sparseD c i vs).map (·.2) = (vs.filter (fun v => !c.isZero v)).map c.enc := by
+  induction vs with
+  | nil => intro i; rfl
+  | cons v vs ih =>
+    intro i
+    simp only [sparseD]
+    by_cases h : c.isZero v = true
+    · simp [h, ih (i + 1)]
+    · simp [h, ih (i + 1)]
+
+/-- the reals the handler receives from `observable c s` are exactly the printed texts of `writtenReals c s`, in order: vector items are the text itself,
+items of a real-valued suffix are the text behind the separating blank -/
+theorem realItems_observable {D : Type} (c : Codec D) (s : Sol D) :
+    realItems (observable c s) =
+      (s.duals ++ s.primals).map c.enc ++
+      (s.sufs.flatMap (fun x => if isOutput x.kind && isFloat x.kind then x.dvals.filter (fun v => !c.isZero v) else [])).map (fun v => 32 :: c.enc v) := by
+  have hvec : ∀ (mk : VecOut → Event) (vs : List D), (mk = .dual false ∨ mk = .primal false) →
+      realItems (vecEvs c mk vs) = vs.map c.enc := by
+    intro mk vs hmk
+    unfold vecEvs
+    by_cases h : vs.length = 0
+    · have : vs = [] := List.eq_nil_of_length_eq_zero h
+      subst this; simp [realItems]
+    · rcases hmk with rfl | rfl <;> simp [h, realItems, List.map_map, Function.comp_def]
+  have hsuf : ∀ l : List (Suf D), realItems (l.flatMap (obsSuf c)) =
+      (l.flatMap (fun x => if isOutput x.kind && isFloat x.kind then x.dvals.filter (fun v => !c.isZero v) else [])).map (fun v => 32 :: c.enc v) := by
+    intro l
+    induction l with
+    | nil => rfl
+    | cons x r ih =>
+      have happ : ∀ a b : List Event, realItems (a ++ b) = realItems a ++ realItems b := by
+        intro a b; simp [realItems]
+      simp only [List.flatMap_cons, happ, ih, List.map_append]
+      congr 1
+      unfold obsSuf
+      by_cases ho : isOutput x.kind = true
+      · by_cases hf : isFloat x.kind = true
+        · have hk : ((((kindMask x.kind : Nat) : Int)).toNat / 4) % 2 = 1 := by
+            have : (x.kind / 4) % 2 = 1 := by simpa [isFloat] using hf
+            simp only [Int.toNat_natCast, kindMask]; omega
+          simp only [ho, hf, Bool.not_true, Bool.false_eq_true, if_false, Bool.and_self, if_true, realItems, List.flatMap_cons, List.flatMap_nil,
+            List.append_nil, hk, Suf.entries, List.map_map]
+          have := congrArg (List.map (fun t => 32 :: t)) (sparseD_texts c x.dvals 0)
+          simpa [List.map_map, Function.comp_def] using this
+        · have hk : ¬ ((((kindMask x.kind : Nat) : Int)).toNat / 4) % 2 = 1 := by
+            have : ¬ (x.kind / 4) % 2 = 1 := by simpa [isFloat] using hf
+            simp only [Int.toNat_natCast, kindMask]; omega
+          simp [ho, hf, realItems]
+          intro h; exfalso; apply hk; simpa using h
+      · simp [ho, realItems]
+  have happ : ∀ a b : List Event, realItems (a ++ b) = realItems a ++ realItems b := by
+    intro a b; simp [realItems]
+  unfold observable
+  simp only [happ, hvec _ _ (.inl rfl), hvec _ _ (.inr rfl), hsuf, List.map_append]
+  have h1 : realItems (if msgRead s.msg = [] then [] else [Event.msg (msgRead s.msg) 0]) = [] := by
+    split <;> simp [realItems]
+  have h2 : ∀ a b t, realItems [Event.options a b t] = [] := by intros; simp [realItems]
+  have h3 : ∀ a b t, realItems [Event.objno a b t] = [] := by intros; simp [realItems]
+  simp [h1, h2, h3]
+
+/-- **Every real of a written file, numeric clause.**  For every codec, every solution meeting `Wf`, both reader variants: the file is read back OK with
+`observable c s` (C05_roundtrip); the reals the handler receives are exactly the printed texts of the solution's reals — duals, primals and the non-zero entries of the
+real-valued OUTPUT suffixes, in order (a suffix item is the text behind the separating blank, which `strtod` skips); and under the two stated ASSUMPTIONS on the
+conversions (`G16` for fmt, `CorrRounded` for strtod — see Spec.lean; assumed only for the reals of this solution) every one of them comes back within `10^-15` relative. -/
+theorem C05_file_reals_within_1e15 {D : Type} (fx fm : Bool) (c : Codec D) (val : D → Rat) (S : Bytes → Rat) (s : Sol D) (nVars nCons : Nat)
+    (w : Wf c s nVars nCons)
+    (hconv : ∀ v ∈ writtenReals c s, ∃ d, decValue (c.enc v) = some d ∧ G16 (val v) d ∧ CorrRounded d (S (c.enc v))) :
+    readSol fx fm nVars nCons readAll (writeSol c s) = ⟨.ok, observable c s, false⟩ ∧
+    realItems (readSol fx fm nVars nCons readAll (writeSol c s)).evs =
+      (s.duals ++ s.primals).map c.enc ++
+      (s.sufs.flatMap (fun x => if isOutput x.kind && isFloat x.kind then x.dvals.filter (fun v => !c.isZero v) else [])).map (fun v => 32 :: c.enc v) ∧
+    ∀ v ∈ writtenReals c s, rabs (S (c.enc v) - val v) ≤ rabs (val v) / 1000000000000000 := by
+  have hr := roundtrip' fx fm c s nVars nCons w
+  refine ⟨hr, ?_, fun v hv => ?_⟩
+  · rw [hr]; exact realItems_observable c s
+  · obtain ⟨d, _, hg, hc⟩ := hconv v hv
+    exact C05_within_1e15 (val v) d (S (c.enc v)) hg hc
+
 /-- integer suffix values in the C `int` range always satisfy the hypotheses on suffix entries … -/
 theorem C05_int_entries_good (vs : List Int) (h : ∀ v ∈ vs, Int32 v) :
     ∀ e ∈ sparseI 0 vs, e.1 < vs.length ∧ GoodSufTok e.2 := by
@@ -327,6 +408,21 @@ theorem C05_table_decomp (t : Bytes) :
           · exact hc
           · exact h1 l (by simp) x hx
         · exact h1 l' (by simp [hl'])
+
+/-- non-vacuity for `C05_file_reals_within_1e15`: the reals of `sol1` and what the handler receives for them (kernel evaluation): the zero entry of the real
+suffix is not written, the suffix item carries the separating blank -/
+theorem C05_file_reals_instance :
+    (writtenReals tokCodec sol1).map tokCodec.enc = [str "0.5", str "1", str "-2.25e-07", str "1e+100"] ∧
+    realItems (readSol true false 3 2 readAll (writeSol tokCodec sol1)).evs = [str "0.5", str "1", str "-2.25e-07", str " 1e+100"] := by
+  decide
+
+/-- the two assumptions are satisfiable for every non-zero value (exact conversions) -/
+theorem C05_assumptions_satisfiable (x : Rat) (h : x ≠ 0) : G16 x x ∧ CorrRounded x x := by
+  refine ⟨⟨rabs x / 1000000000000000, ?_, ?_, ?_⟩, ?_⟩
+  · unfold rabs; grind
+  · unfold rabs; grind
+  · unfold rabs; grind
+  · unfold CorrRounded rabs; grind
 
 /-! non-vacuity of the hypotheses: the concrete solution `sol1` (message with an empty line, options,
 vectors, an int suffix with a two-line table, a skipped suffix, a real suffix with a zero entry) meets `Wf` -/
